@@ -568,6 +568,24 @@ pub fn gen_raw(r: &mut Rng, nonce: u64, steps: u32, step_ms: u64, stream: bool) 
     }
 }
 
+/// RawRequest extractor: the handler gets hyper's request as is.
+pub fn gen_rawreq(r: &mut Rng, nonce: u64, steps: u32, step_ms: u64) -> EchoReq {
+    let mut e = gen_raw(r, nonce, steps, step_ms, false);
+    e.op = "echo_rawreq";
+    e.path_segs[0] = "rawreq".into();
+    let target = e.target();
+    let s = e.canon["path"]["s"].clone();
+    let body = e.canon["body"].clone();
+    e.canon = json!({
+        "path": {"s": s},
+        "body": body,
+        "raw_method": "PUT",
+        "raw_uri": target,
+        "raw_nonce": nonce.to_string(),
+    });
+    e
+}
+
 pub fn gen_mp(r: &mut Rng, nonce: u64, steps: u32, step_ms: u64) -> EchoReq {
     let boundary = format!("Sim-Boundary_{}x{}", nonce, r.range(0, 9999));
     let nf = r.usize_in(0, 4);
@@ -682,7 +700,8 @@ pub fn gen_thing(r: &mut Rng, nonce: u64, steps: u32, step_ms: u64) -> (EchoReq,
 }
 
 pub fn gen_any(r: &mut Rng, nonce: u64, steps: u32, step_ms: u64) -> EchoReq {
-    match r.below(10) {
+    match r.below(11) {
+        10 => gen_rawreq(r, nonce, steps, step_ms),
         0 | 1 | 2 => gen_typed(r, nonce, steps, step_ms),
         3 | 4 => gen_form(r, nonce, steps, step_ms),
         5 => gen_raw(r, nonce, steps, step_ms, false),
